@@ -458,7 +458,7 @@ func cases(tier string) []Case {
 }
 
 func Run(r *report.Run) {
-	r.Rule = "per dialect codec (MySQL, PostgreSQL, SQLite): (a,c) every type spec of the exported TypeRegistry x parameter grid (size, precision/scale, time precision, unsigned, enum/set values, PostgreSQL arrays) written as a SQL type string: FormatType/ParseType fixpoint, and a nullable column of that type through MarshalHCL -> EvalHCLBytes: same formatted type, empty diff both ways, identical bytes when marshalled again; (b) every state of the differ universe (base, base+1 edit or equivalence; thorough: +2 edits): empty diff both ways, equal element lists / attribute sets / formatted column types by our own comparison, identical bytes on re-marshal; non-trivial = case whose type string the dialect parses, or a state; distinct = (dialect, type | edits)"
+	r.Rule = "per dialect codec (MySQL, PostgreSQL, SQLite): (a,c) every type spec of the exported TypeRegistry x parameter grid (size, precision/scale, time precision, unsigned, enum/set values, PostgreSQL arrays) written as a SQL type string: FormatType/ParseType fixpoint, and a nullable column of that type through MarshalHCL -> EvalHCLBytes: same formatted type, empty diff both ways, identical bytes when marshalled again; (b) every state of the differ universe (base, base+1 edit or equivalence; thorough: +2 edits): empty diff both ways, equal element lists / attribute sets / formatted column types by our own comparison, identical bytes on re-marshal; (d) type strings of the grid whose bare name means 'no limit' (character varying, bit varying, numeric) must not parse to the same type as a parameterised spelling; non-trivial = case whose type string the dialect parses, or a state; distinct = (dialect, type | edits)"
 	r.Assumptions = []string{
 		"type strings ParseType rejects are counted as skipped (parameter combination not valid for the type)",
 		"the MySQL table-level AUTO_INCREMENT counter is treated as runtime state (never exported by design) and removed before the round trip; the default index type BTREE counts as unset",
@@ -485,6 +485,61 @@ func Run(r *report.Run) {
 	}
 	r.Set("cases_by_dialect_and_kind", per)
 	r.Set("type_strings_skipped", skipped)
+	// (d) ParseType must not identify type strings that mean different types: the fixpoint checks above
+	// start from ParseType's own answer, so a parser that reads "bit varying" as "bit varying(1)" passes
+	// them. Strings of the grid that parse to the same formatted type must be documented equals.
+	groups := map[string][]string{}
+	for _, c := range cs {
+		if c.Kind != "type" {
+			continue
+		}
+		cd := codecOf(c.Dialect)
+		t, err := cd.parse(c.Type)
+		if err != nil {
+			continue
+		}
+		if _, ok := t.(*postgres.UserDefinedType); ok {
+			continue
+		}
+		f, err := cd.format(t)
+		if err != nil {
+			continue
+		}
+		k := c.Dialect + "|" + f
+		groups[k] = append(groups[k], c.Type)
+	}
+	ncoll := 0
+	for k, members := range groups {
+		if len(members) < 2 {
+			continue
+		}
+		sort.Strings(members)
+		dialect := k[:strings.IndexByte(k, '|')]
+		// judged: a type whose bare name means "no limit" (manual: character varying, bit varying,
+		// numeric without parameters) must not be read as the same type written with a parameter.
+		for _, bare := range members {
+			if !unlimitedWhenBare[dialect+"|"+strings.ToLower(bare)] {
+				continue
+			}
+			for _, m := range members {
+				if !strings.HasPrefix(strings.ToLower(m), strings.ToLower(bare)+"(") {
+					continue
+				}
+				r.CaseDistinct(true)
+				ncoll++
+				r.Violate("", fmt.Sprintf("%s: %q (no limit) and %q are parsed to the same type %q", dialect, bare, m, k[len(dialect)+1:]),
+					map[string]any{"dialect": dialect, "collision": []string{bare, m}})
+			}
+		}
+	}
+	r.Set("type_string_collisions", ncoll)
+	r.Set("type_string_groups_checked", len(groups))
+}
+
+// unlimitedWhenBare: types whose bare name denotes "no length / precision limit" in the database manual.
+var unlimitedWhenBare = map[string]bool{
+	"postgres|character varying": true, "postgres|varchar": true, "postgres|bit varying": true, "postgres|varbit": true,
+	"postgres|numeric": true, "postgres|decimal": true,
 }
 
 var reTimeZero = regexp.MustCompile(`^(time|timetz|timestamp|timestamptz)\(0\)(\[\])?$`)
